@@ -142,7 +142,7 @@ def accepted_prefix(op):
     return prims[:head + op["veto_at"]], "value"
 
 
-MODEL_STRIP = ("create", "asset", "deleter", "stored_only", "proxy", "named", "veto_at", "oneshot")
+MODEL_STRIP = ("create", "asset", "deleter", "stored_only", "proxy", "named", "veto_at", "oneshot", "veto_ref")
 
 
 def model_apply(drv, op, extra=None):
@@ -150,6 +150,13 @@ def model_apply(drv, op, extra=None):
     {"res": outcome, "events": announcements of everything that took effect, "prims": the primitive calls sent}"""
     if op["t"] == "setTopDef" and op.get("named") and op.get("veto"):
         return {"res": "value", "events": [], "prims": []}      # refused by the naming rules: nothing happens
+    if op["t"] == "createChild" and op.get("veto_ref") and op.get("ref") is not None:
+        # the add took effect, the reference step was vetoed: what remains is create_child without reference
+        m = drv.ask(dict({"cmd": "op", "op": {kk: v for kk, v in dict(op, ref=None).items() if kk not in MODEL_STRIP}}, **(extra or {})))
+        if "error" in m:
+            return m
+        # later listeners never hear the vetoed reference announcement
+        return {"res": "value", "events": [e for e in m.get("events", []) if e[0] != "instance_reference"], "prims": [dict(op, ref=None)]}
     prims, outcome = accepted_prefix(op)
     events = []
     res = outcome
@@ -242,9 +249,18 @@ def execute(world, op, rng=None, tok=None):
     spoil = []
 
     def sp(x):
-        # the caller's own argument container: emptied right after the call (the library must not keep an alias to it)
+        # the caller's own argument container: emptied right after the call (the library must not keep an alias to it);
+        # every iterable form a caller may legitimately pass: the container itself, a tuple, a one-shot iterator,
+        # a generator
         spoil.append(x)
-        return x
+        form = (rng.random() if rng is not None else 0.0)
+        if form < 0.55 or isinstance(x, set):
+            return x
+        if form < 0.7:
+            return tuple(x)
+        if form < 0.85:
+            return iter(list(x))
+        return (y for y in list(x))
     try:
         if t == "addLibrary":
             n = g("netlist", op["n"])
@@ -322,7 +338,19 @@ def execute(world, op, rng=None, tok=None):
         elif t == "createChild":
             d = g("definition", op["d"])
             ref = None if op.get("ref") is None else g("definition", op["ref"])
-            W.reg("instance", op["i"], d.create_child(reference=ref))
+            if op.get("veto_ref") and W.guard is not None and ref is not None:
+                # another listener refuses the reference step of the compound constructor
+                before_ids = {id(x) for x in d.children}
+                W.guard.arm(0, "ref")
+                try:
+                    d.create_child(reference=ref)
+                finally:
+                    W.guard.arm(None)
+                    new = [x for x in d.children if id(x) not in before_ids]
+                    if new:
+                        W.reg("instance", op["i"], new[0])
+            else:
+                W.reg("instance", op["i"], d.create_child(reference=ref))
         elif t == "addPin":
             p = g("port", op["p"])
             if op.get("create"):
